@@ -408,3 +408,85 @@ func TestC12RoundTrip(t *testing.T) {
 			return map[string]interface{}{"pattern": c.Pattern, "invert": c.Invert, "before": c.Before, "after": c.After, "max": c.Max}
 		}})
 }
+
+// ---- mapreduce session: an option-less first command ("map <query>") followed by "cat:<options> ..." ----------------
+
+type maprSession struct {
+	Keys  []string // group key of each line
+	Stdin bool     // feed the log through a stdin pipe (serverless option must reach the server side) or as a file
+	Flag  string   // "", --plain, --quiet
+}
+
+func genMaprSession(t *rapid.T) maprSession {
+	return maprSession{
+		Keys:  rapid.SliceOfN(rapid.SampledFrom([]string{"a", "b", "c"}), 1, 40).Draw(t, "keys"),
+		Stdin: rapid.Bool().Draw(t, "stdin"),
+		Flag:  rapid.SampledFrom([]string{"", "--plain", "--quiet"}).Draw(t, "flag"),
+	}
+}
+
+func evalMaprSession(c maprSession) lib.Outcome {
+	var o lib.Outcome
+	o.NonTrivial = c.Stdin || c.Flag != ""
+	o.Classes = []string{"mapr-session", "flag=" + c.Flag}
+	if c.Stdin {
+		o.Classes = append(o.Classes, "stdin-pipe")
+	}
+	caseMu.Lock()
+	caseN++
+	id := caseN
+	caseMu.Unlock()
+	dir := filepath.Join(root, fmt.Sprintf("mcase-%d", id%64))
+	os.RemoveAll(dir)
+	os.MkdirAll(dir, 0o755)
+	defer os.RemoveAll(dir)
+	var content bytes.Buffer
+	want := map[string]int{}
+	for i, k := range c.Keys {
+		fmt.Fprintf(&content, "INFO|1002-071143|1|stats.go:56|8|13|7|0.21|471h0m21s|MAPREDUCE:STATS|k=%s|v=%d\n", k, i)
+		want[k]++
+	}
+	file := filepath.Join(dir, "in.log")
+	os.WriteFile(file, content.Bytes(), 0o644)
+	out := filepath.Join(dir, "out.csv")
+	query := fmt.Sprintf("select count($line),k from STATS group by k outfile %s", out)
+	args := []string{"--cfg", "none", "--noColor", "--logLevel", "error", "--query", query}
+	if c.Flag != "" {
+		args = append(args, c.Flag)
+	}
+	opts := lib.RunOpts{Home: home, Timeout: 60 * time.Second}
+	if c.Stdin {
+		opts.Stdin = bytes.NewReader(content.Bytes())
+	} else {
+		args = append(args, file)
+	}
+	r := lib.RunClient("dmap", args, opts)
+	if r.TimedOut {
+		o.Fail = fmt.Sprintf("dmap %q did not terminate within 60s", args)
+		return o
+	}
+	b, _ := os.ReadFile(out)
+	got := map[string]int{}
+	for i, l := range strings.Split(strings.TrimSpace(string(b)), "\n") {
+		if i == 0 {
+			continue
+		}
+		f := strings.Split(l, ",")
+		if len(f) == 2 {
+			n := 0
+			fmt.Sscan(f[0], &n)
+			got[f[1]] = n
+		}
+	}
+	if fmt.Sprint(got) != fmt.Sprint(want) || r.Exit != 0 {
+		o.Fail = fmt.Sprintf("dmap %q (stdin=%v): exit=%d, result %v, want %v; stderr=%q", args, c.Stdin, r.Exit, got, want, tailS(r.Stderr))
+		o.Observed = string(b)
+	}
+	return o
+}
+
+func TestC12MaprSession(t *testing.T) {
+	lib.Run(t, lib.Spec[maprSession]{Prop: "C12", Check: "mapr-session",
+		Rule: "dmap binary, serverless: the session's first command ('map <query>') carries no options, the following 'cat:<options>' does; log lines given as a file or through a stdin pipe (which only works if the 'serverless' option reaches the server side), with --plain / --quiet / neither; oracle: CSV counts per group == line counts; non-trivial = stdin pipe or an output-mode flag",
+		Gen:  genMaprSession, Eval: evalMaprSession})
+}
